@@ -57,6 +57,131 @@ func forEachStdCase(w *fw.W, o stdOpts, fn func(cs *world.Case, family string)) 
 	if o.MinShape {
 		shapes = []gen.Shape{{}, {Static: true}, {MemWords: 3, RData: true}}
 	}
+	// the small hand-shaped families come first, so that a run cut by its deadline has covered them
+	// SSTORESEQ: every sequence of up to 3 stores to one slot over {0, original, two other values} (net-metering
+	// state machine: original zero / non-zero, dirty / clean, reset to original, cleared)
+	if o.SstoreSeq {
+		vals := []uint64{0, 0x11, 0x22, 0x33}
+		for _, f := range o.Forks {
+			for _, origIx := range []int{0, 1} {
+				f, origIx := f, origIx
+				gen.ForEachSeq(len(vals), 3, func(seq []int) {
+					if len(seq) == 0 || !w.Mine() || w.Expired() {
+						return
+					}
+					p := asm.New()
+					for _, v := range seq {
+						p.Push(vals[v]).Push(9).Op(asm.SSTORE)
+					}
+					p.Push(9).Op(asm.SLOAD).Push(0).Op(asm.MSTORE).Push(32).Push(0).Op(asm.RETURN)
+					cs := gen.StdCase(f, p.Bytes(), "call", o.Gas)
+					if origIx == 1 {
+						cs.Accounts[1].Storage[common.HexToHash("0x9")] = common.HexToHash("0x11")
+					}
+					cs.Note = fmt.Sprintf("SSTORESEQ orig=%d seq=%v", origIx, seq)
+					fn(cs, "SSTORESEQ")
+				})
+			}
+		}
+	}
+	// SDSEQ: every sequence of up to 3 calls into two self-destructing contracts x every pair of beneficiaries
+	// {itself, the other one, the caller, an absent account, the origin} x call value {0,1}: repeated destruction,
+	// destruction into an already destroyed account, re-funding of a destroyed account (refund counter, balances,
+	// account-creation surcharge per fork)
+	if o.SstoreSeq {
+		sd := [2]common.Address{world.ContractAddr(60), world.ContractAddr(61)}
+		benef := func(self int, k int) common.Address {
+			switch k {
+			case 0:
+				return sd[self]
+			case 1:
+				return sd[1-self]
+			case 2:
+				return gen.T
+			case 3:
+				return gen.Absent
+			}
+			return world.Origin
+		}
+		for _, f := range o.Forks {
+			for b0 := 0; b0 < 5; b0++ {
+				for b1 := 0; b1 < 5; b1++ {
+					for _, val := range []uint64{0, 1} {
+						f, b0, b1, val := f, b0, b1, val
+						gen.ForEachSeq(2, 3, func(seq []int) {
+							if len(seq) == 0 || !w.Mine() || w.Expired() {
+								return
+							}
+							p := asm.New()
+							for _, t := range seq {
+								p.Push(0).Push(0).Push(0).Push(0).Push(val).PushAddr(sd[t]).Push(70000).Op(asm.CALL, asm.POP)
+							}
+							p.Op(asm.STOP)
+							cs := gen.StdCase(f, p.Bytes(), "call", 400000)
+							cs.Accounts = append(cs.Accounts,
+								world.Account{Addr: sd[0], Balance: world.Big(10), Nonce: 1, Code: asm.New().PushAddr(benef(0, b0)).Op(asm.SELFDESTRUCT).Bytes()},
+								world.Account{Addr: sd[1], Balance: world.Big(20), Nonce: 1, Code: asm.New().PushAddr(benef(1, b1)).Op(asm.SELFDESTRUCT).Bytes()})
+							cs.Note = fmt.Sprintf("SDSEQ beneficiaries=(%d,%d) value=%d calls=%v", b0, b1, val, seq)
+							fn(cs, "SDSEQ")
+						})
+					}
+				}
+			}
+		}
+	}
+	// CREATESEQ: every sequence of up to 2 (thorough: 3) creation instructions over {CREATE, CREATE2 with salt 1 or 2} x
+	// init code {empty, STOP, returns one byte of code, REVERT, SELFDESTRUCT}: address derivation, nonce bumps,
+	// address collisions with accounts that have a nonce but no code / code / nothing left, re-creation after a failure
+	if o.SstoreSeq {
+		inits := [][]byte{{}, {asm.STOP}, asm.New().Push(1).Push(0).Op(asm.RETURN).Bytes(), asm.New().Push(0).Push(0).Op(asm.REVERT).Bytes(),
+			asm.New().PushAddr(world.Origin).Op(asm.SELFDESTRUCT).Bytes()}
+		type cr struct {
+			salt int // 0: CREATE
+			init int
+		}
+		var alpha []cr
+		for s := 0; s <= 2; s++ {
+			for i := range inits {
+				alpha = append(alpha, cr{s, i})
+			}
+		}
+		L := 2
+		if o.FullShape {
+			L = 3
+		}
+		for _, f := range o.Forks {
+			f := f
+			gen.ForEachSeq(len(alpha), L, func(seq []int) {
+				if len(seq) == 0 || !w.Mine() || w.Expired() {
+					return
+				}
+				p := asm.New()
+				note := ""
+				for k, ix := range seq {
+					c := alpha[ix]
+					var word common.Hash
+					copy(word[:], inits[c.init])
+					p.Push32(word).Push(0).Op(asm.MSTORE)
+					if c.salt != 0 {
+						p.Push(uint64(c.salt))
+					}
+					p.Push(uint64(len(inits[c.init]))).Push(0).Push(0)
+					if c.salt != 0 {
+						p.Op(asm.CREATE2)
+						note += fmt.Sprintf(" CREATE2(salt=%d,init=%d)", c.salt, c.init)
+					} else {
+						p.Op(asm.CREATE)
+						note += fmt.Sprintf(" CREATE(init=%d)", c.init)
+					}
+					p.Push(uint64(0x20 + k)).Op(asm.SSTORE)
+				}
+				p.Op(asm.STOP)
+				cs := gen.StdCase(f, p.Bytes(), "call", 600000)
+				cs.Note = "CREATESEQ" + note
+				fn(cs, "CREATESEQ")
+			})
+		}
+	}
 	// IM
 	for _, spec := range specs {
 		for _, sh := range shapes {
@@ -200,77 +325,6 @@ func forEachStdCase(w *fw.W, o stdOpts, fn func(cs *world.Case, family string)) 
 			}
 		}
 	}
-	// SSTORESEQ: every sequence of up to 3 stores to one slot over {0, original, two other values} (net-metering
-	// state machine: original zero / non-zero, dirty / clean, reset to original, cleared)
-	if o.SstoreSeq {
-		vals := []uint64{0, 0x11, 0x22, 0x33}
-		for _, f := range o.Forks {
-			for _, origIx := range []int{0, 1} {
-				f, origIx := f, origIx
-				gen.ForEachSeq(len(vals), 3, func(seq []int) {
-					if len(seq) == 0 || !w.Mine() || w.Expired() {
-						return
-					}
-					p := asm.New()
-					for _, v := range seq {
-						p.Push(vals[v]).Push(9).Op(asm.SSTORE)
-					}
-					p.Push(9).Op(asm.SLOAD).Push(0).Op(asm.MSTORE).Push(32).Push(0).Op(asm.RETURN)
-					cs := gen.StdCase(f, p.Bytes(), "call", o.Gas)
-					if origIx == 1 {
-						cs.Accounts[1].Storage[common.HexToHash("0x9")] = common.HexToHash("0x11")
-					}
-					cs.Note = fmt.Sprintf("SSTORESEQ orig=%d seq=%v", origIx, seq)
-					fn(cs, "SSTORESEQ")
-				})
-			}
-		}
-	}
-	// SDSEQ: every sequence of up to 3 calls into two self-destructing contracts x every pair of beneficiaries
-	// {itself, the other one, the caller, an absent account, the origin} x call value {0,1}: repeated destruction,
-	// destruction into an already destroyed account, re-funding of a destroyed account (refund counter, balances,
-	// account-creation surcharge per fork)
-	if o.SstoreSeq {
-		sd := [2]common.Address{world.ContractAddr(60), world.ContractAddr(61)}
-		benef := func(self int, k int) common.Address {
-			switch k {
-			case 0:
-				return sd[self]
-			case 1:
-				return sd[1-self]
-			case 2:
-				return gen.T
-			case 3:
-				return gen.Absent
-			}
-			return world.Origin
-		}
-		for _, f := range o.Forks {
-			for b0 := 0; b0 < 5; b0++ {
-				for b1 := 0; b1 < 5; b1++ {
-					for _, val := range []uint64{0, 1} {
-						f, b0, b1, val := f, b0, b1, val
-						gen.ForEachSeq(2, 3, func(seq []int) {
-							if len(seq) == 0 || !w.Mine() || w.Expired() {
-								return
-							}
-							p := asm.New()
-							for _, t := range seq {
-								p.Push(0).Push(0).Push(0).Push(0).Push(val).PushAddr(sd[t]).Push(70000).Op(asm.CALL, asm.POP)
-							}
-							p.Op(asm.STOP)
-							cs := gen.StdCase(f, p.Bytes(), "call", 400000)
-							cs.Accounts = append(cs.Accounts,
-								world.Account{Addr: sd[0], Balance: world.Big(10), Nonce: 1, Code: asm.New().PushAddr(benef(0, b0)).Op(asm.SELFDESTRUCT).Bytes()},
-								world.Account{Addr: sd[1], Balance: world.Big(20), Nonce: 1, Code: asm.New().PushAddr(benef(1, b1)).Op(asm.SELFDESTRUCT).Bytes()})
-							cs.Note = fmt.Sprintf("SDSEQ beneficiaries=(%d,%d) value=%d calls=%v", b0, b1, val, seq)
-							fn(cs, "SDSEQ")
-						})
-					}
-				}
-			}
-		}
-	}
 	// SCN: scenario call trees (mutually calling contract sets: every call kind, creates, self-destructs, reverts)
 	if o.Scn {
 		so := &scnOpts{Forks: o.Forks, Answers: failAlphabet, BoundAll: true, TopValues: []int{0, 1}}
@@ -278,7 +332,7 @@ func forEachStdCase(w *fw.W, o stdOpts, fn func(cs *world.Case, family string)) 
 			so.Forks, so.TopValues = []world.Fork{world.Byzantium, world.London, world.Shanghai}, []int{0}
 		}
 		so.Gen = scn.GenOpts{MaxDepth: 2, Effects: []scn.Effect{scn.ENone, scn.ESstore, scn.ELog}, PreEffects: []scn.Effect{scn.ENone, scn.ESstore}, Terms: allTerms, InitTerms: initTerms, Kinds: allKinds,
-			Values: []int{0, 1, 2}, Targets: []scn.Target{scn.TgChild, scn.TgPrecompile, scn.TgCodeless, scn.TgSelf, scn.TgBadPrecompile}}
+			Values: []int{0, 1, 2}, Targets: []scn.Target{scn.TgChild, scn.TgPrecompile, scn.TgCodeless, scn.TgSelf, scn.TgBadPrecompile, scn.TgAbsent}}
 		if o.ScnDeep {
 			so.Gen.MaxDepth, so.Gen.MaxFrames = 3, 3
 		}
